@@ -605,6 +605,11 @@ def ks_distance(x, cdf, discrete):
     return float(d.max()), float(x[np.argmax(d)])
 
 
+def law_signature(msg, fam, mode):
+    if msg.startswith('NONFINITE'): return dict(oracle='non-finite-variate', family=fam)
+    return dict(oracle='family-reference', family=fam, mode=mode)
+
+
 def oracle_law(fam, mode, P, N, seed):
     """ N variates against the documented law: hard support checks, moments (6-sigma) and the Kolmogorov distance to the
         documented distribution function (threshold 3.5/sqrt(N): false-alarm probability < 1e-10 per check; statistical) """
@@ -616,6 +621,18 @@ def oracle_law(fam, mode, P, N, seed):
     d = getattr(ss, fam)(**pars); d.init(trace='law', seed=seed, sim=sim, slots=slots); d.jump_dt(ti=1)
     x = np.asarray(d.rvs(ss.uids(np.arange(N))), dtype=float)
     if len(x) != N: return f'{len(x)} variates for {N} agents'
+    nonfinite = None
+    if not np.all(np.isfinite(x)):
+        # an infinite or NaN "variate": outside the support of every family (reported under its own signature, after the law
+        # has been examined on the remaining values)
+        bad = np.flatnonzero(~np.isfinite(x))
+        nonfinite = f'NONFINITE: {len(bad)} of {N} variates are not finite (agent {int(bad[0])}: {x[bad[0]]}; a uniform draw of exactly 0 or 1 pushed through the quantile function)'
+        x = x[np.isfinite(x)]; N = len(x)
+    msg = _law_checks(fam, P, x, N)
+    return msg or nonfinite
+
+
+def _law_checks(fam, P, x, N):
     tm = theo_moments(fam, P)
     if fam == 'randint' and not np.all((x >= P['low']) & (x < P['high'])): return f'values outside [{P["low"]}, {P["high"]}): max {x.max()}, min {x.min()}'
     if fam == 'uniform' and not np.all((x >= P['low']) & (x <= P['high'])): return 'values outside [low, high]'
@@ -672,13 +689,14 @@ def search(ctx):
             except Exception as e: msg = f'raised {type(e).__name__}: {e}'
             ctx.count('law_checks_targeted')
             if msg:
-                ctx.fail(dict(oracle='family-reference', family=fam, mode=mode), f'ss.{fam} ({mode}) with {P}: {msg}', dict(kind='law', family=fam, mode=mode, pars=P, N=200000, seed=seed))
+                ctx.fail(law_signature(msg, fam, mode), f'ss.{fam} ({mode}) with {P}: {msg}', dict(kind='law', family=fam, mode=mode, pars=P, N=200000, seed=seed))
     todo = []
     for fam in fams:
         modes = ['scalar'] + (['array', 'callable'] if fam in DYN else [])
         for mode in (modes if ctx.thorough or ctx.broken else [ctx.rng.choice(modes), 'scalar'] if len(modes) > 1 else modes):
             todo.append((fam, mode))
-    for fam, mode in dict.fromkeys(todo):
+    reps = 8 if ctx.thorough else 1        # thorough: several parameter sets per (family, mode)
+    for fam, mode in [fm for fm in dict.fromkeys(todo) for _ in range(reps)]:
         P, _ = gen_pars(fam, ctx.rng, 3)
         seed = ctx.rng.randint(0, 10**6)
         try:
@@ -687,7 +705,7 @@ def search(ctx):
             msg = f'raised {type(e).__name__}: {e}'
         ctx.count('law_checks')
         if msg:
-            ctx.fail(dict(oracle='family-reference', family=fam, mode=mode), f'ss.{fam} ({mode}) with {P}: {msg}', dict(kind='law', family=fam, mode=mode, pars=P, N=N, seed=seed))
+            ctx.fail(law_signature(msg, fam, mode), f'ss.{fam} ({mode}) with {P}: {msg}', dict(kind='law', family=fam, mode=mode, pars=P, N=N, seed=seed))
     for _ in range(ctx.budget(5, 40)):
         seed = ctx.rng.randint(0, 10**6); n = ctx.rng.randint(20, 300)
         st = ctx.rng.getstate()
